@@ -619,7 +619,7 @@ func (bt *builtTx) msgUnjail() (postypes.MsgUnjail, bool) {
 
 var valsetKinds = []string{"stake", "stake", "stake", "unstake", "unstake", "unjail", "unjail", "burn", "burn", "send", "award", "param"}
 
-var c05Profile = &histProfile{MaxBlocks: 24, MinBlocksOf: []int{3, 8, 14}, Evidence: 4, Missed: 1, Restart: 0, MaxTxs: 4, TxKinds: valsetKinds, Scripts: true, Batches: true, Anchor: true, OwnerBias: 3,
+var c05Profile = &histProfile{ScriptGov: []string{"lowermax", "lowermax", "raisemax", "raisemin", "lowermin"}, MaxBlocks: 24, MinBlocksOf: []int{3, 8, 14}, Evidence: 4, Missed: 1, Restart: 0, MaxTxs: 4, TxKinds: valsetKinds, Scripts: true, Batches: true, Anchor: true, OwnerBias: 3,
 	MaxVals: []uint64{1, 2, 3, 5, 100000}, Windows: []int64{10, 10, 14}}
 
 func genValset(pr *histProfile, noMinChange bool) func(t *rapid.T, tier string) interface{} {
@@ -730,9 +730,9 @@ func execC09(prog interface{}, c *Case) *Violation {
 var _ = bytes.Equal
 
 func init() {
-	c06Profile := &histProfile{MaxBlocks: 24, MinBlocksOf: []int{3, 8, 14}, Evidence: 5, Missed: 2, Restart: 0, MaxTxs: 5, FixedMin: true, Scripts: true, Batches: true, Anchor: true, OwnerBias: 3,
+	c06Profile := &histProfile{ScriptGov: []string{"lowermax", "raisemax", "raisemin", "lowermin"}, MaxBlocks: 24, MinBlocksOf: []int{3, 8, 14}, Evidence: 5, Missed: 2, Restart: 0, MaxTxs: 5, FixedMin: true, Scripts: true, Batches: true, Anchor: true, OwnerBias: 3,
 		TxKinds: []string{"stake", "stake", "stake", "unstake", "unstake", "unstake", "unjail", "burn", "burn", "send", "award", "param", "param"}, Windows: []int64{10, 10, 14}}
-	c09Profile := &histProfile{MaxBlocks: 30, MinBlocksOf: []int{6, 12, 20}, Evidence: 5, Missed: 1, Restart: 0, MaxTxs: 4, Scripts: true, Batches: true, Anchor: true, OwnerBias: 3,
+	c09Profile := &histProfile{ScriptGov: []string{"raisemin", "lowermin"}, MaxBlocks: 30, MinBlocksOf: []int{6, 12, 20}, Evidence: 5, Missed: 1, Restart: 0, MaxTxs: 4, Scripts: true, Batches: true, Anchor: true, OwnerBias: 3,
 		TxKinds: []string{"unjail", "unjail", "unjail", "stake", "unstake", "burn", "send", "param"}, Windows: []int64{10, 10, 10}, MinSigned: []string{"0.5", "0.5", "0.9", "1", "0.05"},
 		ScriptTemplates: [][]string{
 			{"downtime", "unjail!", "wait", "unjail"},
@@ -743,6 +743,11 @@ func init() {
 			{"downtime", "unstake!", "unjail!", "wait", "unjail"},
 			{"burn1", "wait!", "stake!", "downtime", "unjail!", "wait", "unjail"},
 			{"downtime", "burn!", "unjail!", "stake!", "unjail!"},
+			// the minimum stake moves while the validator sits in jail
+			{"downtime", "raisemin!", "unjail!", "wait", "unjail"},
+			{"downtime", "raisemin!", "wait", "unjail", "lowermin!", "unjail!"},
+			{"raisemin", "downtime", "lowermin!", "wait", "unjail"},
+			{"burn", "raisemin!", "downtime", "wait", "unjail"},
 		}}
 	register(&PropDef{ID: "C05",
 		Rule: "chain histories biased to staking-state changes with MaxValidators in {1,2,3,5,100000} (also changed by governance), equal-power groups, powers straddling the cut-off, jail/unjail, slashes, " +
